@@ -1,0 +1,345 @@
+//go:build verif
+
+package index
+
+// Verification hooks for C09 (shard round-trip) and C10 (build independence).
+// Thin exported wrappers around unexported coders, the postings builder, the TOC reader and
+// the loaded indexData. Not part of the normal build.
+
+import (
+	"bytes"
+	"fmt"
+	"math"
+
+	"github.com/sourcegraph/zoekt"
+)
+
+func VerifToSizedDeltas(o []uint32) []byte               { return toSizedDeltas(o) }
+func VerifFromSizedDeltas(b []byte) []uint32             { return fromSizedDeltas(b, nil) }
+func VerifToSizedDeltas16(o []uint16) []byte             { return toSizedDeltas16(o) }
+func VerifFromSizedDeltas16(b []byte) []uint16           { return fromSizedDeltas16(b, nil) }
+func VerifFromDeltas(b []byte) []uint32                  { return fromDeltas(b, nil) }
+func VerifMarshalDocSections(s []DocumentSection) []byte { return marshalDocSections(s) }
+func VerifUnmarshalDocSections(b []byte) []DocumentSection {
+	return unmarshalDocSections(b, nil)
+}
+func VerifNewLinesIndices(b []byte) []uint32 { return newLinesIndices(b) }
+
+// VerifCategoryCode is FileCategory.encode followed by decodeCategory.
+func VerifCategoryCode(c FileCategory) (code byte, back FileCategory, err error) {
+	code, err = c.encode()
+	if err != nil {
+		return 0, 0, err
+	}
+	back, err = decodeCategory(code)
+	return code, back, err
+}
+
+// VerifPostings wraps one postingsBuilder so that a harness can drive newSearchableString,
+// reset (buffer reuse across shards) and the real writePostings.
+type VerifPostings struct{ pb *postingsBuilder }
+
+func VerifNewPostings() *VerifPostings { return &VerifPostings{pb: newPostingsBuilder(0)} }
+
+func (v *VerifPostings) Reset() { v.pb.reset() }
+
+func (v *VerifPostings) Add(data []byte, secs []DocumentSection) ([]DocumentSection, error) {
+	_, rs, err := v.pb.newSearchableString(data, secs)
+	return rs, err
+}
+
+// VerifPostingsDump is what writePostings puts into the four posting sections.
+type VerifPostingsDump struct {
+	Ngrams      []uint64 // ngramText, decoded 8 bytes big-endian each
+	Postings    [][]byte // one item per ngram (compound section items, cut with relativeIndex)
+	RuneOffsets []byte   // charOffsets section
+	EndRunes    []byte   // endRunes section
+	PlainASCII  bool
+	EndByte     uint32
+	RuneCount   uint32
+}
+
+func (v *VerifPostings) Write() (VerifPostingsDump, error) {
+	var buf bytes.Buffer
+	w := &writer{w: &buf}
+	var ngramText, charOffsets, endRunes simpleSection
+	var postings compoundSection
+	writePostings(w, v.pb, &ngramText, &charOffsets, &postings, &endRunes)
+	if w.err != nil {
+		return VerifPostingsDump{}, w.err
+	}
+	all := buf.Bytes()
+	cut := func(s simpleSection) []byte { return append([]byte(nil), all[s.off:s.off+s.sz]...) }
+	d := VerifPostingsDump{
+		RuneOffsets: cut(charOffsets),
+		EndRunes:    cut(endRunes),
+		PlainASCII:  v.pb.isPlainASCII,
+		EndByte:     v.pb.endByte,
+		RuneCount:   v.pb.runeCount,
+	}
+	nt := cut(ngramText)
+	if len(nt)%8 != 0 {
+		return d, fmt.Errorf("ngramText size %d", len(nt))
+	}
+	for i := 0; i < len(nt); i += 8 {
+		var x uint64
+		for _, c := range nt[i : i+8] {
+			x = x<<8 | uint64(c)
+		}
+		d.Ngrams = append(d.Ngrams, x)
+	}
+	ri := postings.relativeIndex()
+	data := cut(postings.data)
+	for i := 0; i+1 < len(ri); i++ {
+		d.Postings = append(d.Postings, data[ri[i]:ri[i+1]])
+	}
+	return d, nil
+}
+
+// VerifSection is one TOC entry with its raw bytes.
+type VerifSection struct {
+	Tag   string
+	Kind  int
+	Data  []byte   // simple: the bytes; compound: the data part
+	Items [][]byte // compound only: items cut by the stored offsets
+}
+
+// VerifReadSections reads the TOC of an index file with the real reader and returns every
+// non-empty tagged section with its raw content.
+func VerifReadSections(f IndexFile) ([]VerifSection, error) {
+	rd := &reader{r: f}
+	var toc indexTOC
+	if err := rd.readTOC(&toc); err != nil {
+		return nil, err
+	}
+	var out []VerifSection
+	for _, ts := range toc.sectionsTaggedList() {
+		switch s := ts.sec.(type) {
+		case *simpleSection:
+			b, err := f.Read(s.off, s.sz)
+			if err != nil {
+				return nil, err
+			}
+			out = append(out, VerifSection{Tag: ts.tag, Kind: int(s.kind()), Data: b})
+		case *compoundSection:
+			vs, err := verifCompound(f, ts.tag, s, s.offsets)
+			if err != nil {
+				return nil, err
+			}
+			out = append(out, vs)
+		case *lazyCompoundSection:
+			offs, err := readSectionU32(f, s.index)
+			if err != nil {
+				return nil, err
+			}
+			vs, err := verifCompound(f, ts.tag, &s.compoundSection, offs)
+			if err != nil {
+				return nil, err
+			}
+			vs.Kind = int(s.kind())
+			out = append(out, vs)
+		}
+	}
+	return out, nil
+}
+
+func verifCompound(f IndexFile, tag string, s *compoundSection, offs []uint32) (VerifSection, error) {
+	b, err := f.Read(s.data.off, s.data.sz)
+	if err != nil {
+		return VerifSection{}, err
+	}
+	vs := VerifSection{Tag: tag, Kind: int(s.kind()), Data: b}
+	for i, o := range offs {
+		end := s.data.off + s.data.sz
+		if i+1 < len(offs) {
+			end = offs[i+1]
+		}
+		if o < s.data.off || end < o || end > s.data.off+s.data.sz {
+			return vs, fmt.Errorf("section %s: item %d out of range", tag, i)
+		}
+		vs.Items = append(vs.Items, b[o-s.data.off:end-s.data.off])
+	}
+	return vs, nil
+}
+
+// VerifDoc is everything the loaded shard knows about one document, fetched with the same
+// accessors the search path uses.
+type VerifDoc struct {
+	Name         []byte
+	Content      []byte
+	BranchMask   uint64
+	Checksum     []byte
+	Language     string
+	LangCode     uint16
+	Category     FileCategory
+	SubRepo      uint32
+	SubRepoPath  string
+	Repo         uint16
+	Sections     []DocumentSection // byte sections (readDocSections)
+	RuneSections []DocumentSection // runeDocSections[fileEndSymbol[i]:fileEndSymbol[i+1]]
+	Symbols      []*zoekt.Symbol   // symbols.data(fileEndSymbol[i]+j); nil entries possible
+	Newlines     []uint32
+	EndRune      uint32
+	NameEndRune  uint32
+}
+
+type VerifShard struct {
+	Docs     []VerifDoc
+	Repos    []zoekt.Repository
+	Meta     zoekt.IndexMetadata
+	Content  map[uint64][]uint32 // ngram -> decoded posting list (content)
+	Names    map[uint64][]uint32 // ngram -> decoded posting list (file names)
+	GetFails []string            // ngrams for which btreeIndex.Get disagrees with DumpMap
+	// RuneToByte[k] = byte offset the rune-offset map gives for rune 100*k of the content corpus
+	RuneToByte     []uint32
+	NameRuneToByte []uint32
+}
+
+func verifDecodePosting(blob []byte, ng ngram) []uint32 {
+	if len(blob) == 0 {
+		return nil
+	}
+	var out []uint32
+	it := newCompressedPostingIterator(blob, ng)
+	for {
+		f := it.first()
+		if f == math.MaxUint32 {
+			return out
+		}
+		out = append(out, f)
+		it.next(f)
+		if len(out) > 1<<24 {
+			return out
+		}
+	}
+}
+
+func verifPostings(d *indexData, bi btreeIndex, absent []ngram) (map[uint64][]uint32, []string, error) {
+	out := map[uint64][]uint32{}
+	var fails []string
+	dump := bi.DumpMap()
+	for ng, sec := range dump {
+		blob, err := d.readSectionBlob(sec)
+		if err != nil {
+			return nil, nil, err
+		}
+		out[uint64(ng)] = verifDecodePosting(blob, ng)
+		if got := bi.Get(ng); got != sec {
+			fails = append(fails, fmt.Sprintf("Get(%d)=%v want %v", ng, got, sec))
+		}
+		for _, nb := range []ngram{ng - 1, ng + 1} {
+			if _, ok := dump[nb]; !ok {
+				if got := bi.Get(nb); got != (simpleSection{}) {
+					fails = append(fails, fmt.Sprintf("Get(absent %d)=%v", nb, got))
+				}
+			}
+		}
+	}
+	for _, ng := range absent {
+		if _, ok := dump[ng]; ok {
+			continue
+		}
+		if got := bi.Get(ng); got != (simpleSection{}) {
+			fails = append(fails, fmt.Sprintf("Get(absent %d)=%v", ng, got))
+		}
+	}
+	return out, fails, nil
+}
+
+// VerifDumpShard dumps a loaded shard (the Searcher returned by NewSearcher).
+func VerifDumpShard(s zoekt.Searcher) (*VerifShard, error) {
+	d, ok := s.(*indexData)
+	if !ok {
+		return nil, fmt.Errorf("not an *indexData: %T", s)
+	}
+	out := &VerifShard{Repos: d.repoMetaData, Meta: d.metaData}
+	n := d.numDocs()
+	for i := uint32(0); i < n; i++ {
+		var vd VerifDoc
+		vd.Name = append([]byte(nil), d.fileName(i)...)
+		c, err := d.readContents(i)
+		if err != nil {
+			return nil, err
+		}
+		vd.Content = append([]byte(nil), c...)
+		vd.BranchMask = d.fileBranchMasks[i]
+		vd.Checksum = append([]byte(nil), d.getChecksum(i)...)
+		vd.LangCode = d.getLanguage(i)
+		vd.Language = d.languageMap[vd.LangCode]
+		vd.Category = d.getCategory(i)
+		vd.SubRepo = d.subRepos[i]
+		vd.Repo = d.repos[i]
+		if int(vd.Repo) < len(d.subRepoPaths) && int(vd.SubRepo) < len(d.subRepoPaths[vd.Repo]) {
+			vd.SubRepoPath = d.subRepoPaths[vd.Repo][vd.SubRepo]
+		} else {
+			vd.SubRepoPath = "<out of range>"
+		}
+		secs, _, err := d.readDocSections(i, nil)
+		if err != nil {
+			return nil, err
+		}
+		vd.Sections = secs
+		if int(i)+1 < len(d.fileEndSymbol) {
+			lo, hi := d.fileEndSymbol[i], d.fileEndSymbol[i+1]
+			if lo <= hi && int(hi) <= len(d.runeDocSections) {
+				vd.RuneSections = d.runeDocSections[lo:hi]
+			}
+			for j := range secs {
+				vd.Symbols = append(vd.Symbols, d.symbols.data(lo+uint32(j)))
+			}
+		}
+		nl, _, err := d.readNewlines(i, nil)
+		if err != nil {
+			return nil, err
+		}
+		vd.Newlines = nl
+		vd.EndRune = d.fileEndRunes[i]
+		vd.NameEndRune = d.fileNameEndRunes[i]
+		out.Docs = append(out.Docs, vd)
+	}
+	var err error
+	var f1, f2 []string
+	out.Content, f1, err = verifPostings(d, d.contentNgrams, nil)
+	if err != nil {
+		return nil, err
+	}
+	out.Names, f2, err = verifPostings(d, d.fileNameNgrams, nil)
+	if err != nil {
+		return nil, err
+	}
+	out.GetFails = append(f1, f2...)
+	if n > 0 {
+		for r := uint32(0); r < d.fileEndRunes[n-1]; r += runeOffsetFrequency {
+			b, _ := d.runeOffsets.lookup(r)
+			out.RuneToByte = append(out.RuneToByte, b)
+		}
+		for r := uint32(0); r < d.fileNameEndRunes[n-1]; r += runeOffsetFrequency {
+			b, _ := d.fileNameRuneOffsets.lookup(r)
+			out.NameRuneToByte = append(out.NameRuneToByte, b)
+		}
+	}
+	return out, nil
+}
+
+// VerifCheck is DocChecker.Check on a fresh checker.
+func VerifCheck(content []byte, maxTrigramCount int, allowLargeFile bool) SkipReason {
+	var c DocChecker
+	return c.Check(content, maxTrigramCount, allowLargeFile)
+}
+
+func VerifSkipExplanation(r SkipReason) string { return notIndexedMarker + r.explanation() }
+
+// VerifSortDocuments runs sortDocuments and returns the permutation (original indices in new order).
+func VerifSortDocuments(docs []*Document) []int {
+	pos := make(map[*Document]int, len(docs))
+	for i, d := range docs {
+		pos[d] = i
+	}
+	todo := append([]*Document(nil), docs...)
+	sortDocuments(todo)
+	out := make([]int, len(todo))
+	for i, d := range todo {
+		out[i] = pos[d]
+	}
+	return out
+}
